@@ -5,14 +5,99 @@ import core, worldeng as we
 # per property: model-checking families with constants per tier
 #   (family, (MaxTok, MaxLen, MaxLit) quick, (..) thorough)
 # codecs for edge replay per tier, random-history families and sizes per tier
+ALLC = ['int', 'string', 'float64', 'any', 'slice']
+KEYC = ['int', 'string', 'float64', 'rune', 'any', 'ptr']
 CONF = {
     'C01': dict(
-        mc=[('list', (2, 2, 2), (2, 3, 2))],
-        edge_codecs=(['int'], ['int', 'string', 'float64', 'any', 'slice']),
-        rand=[('list', ['int', 'string', 'float64', 'any', 'slice'])],
-        rand_size=((30, 80, 10), (300, 150, 40)),      # (histories per codec, steps, maxlen)
-        title='List and Array as an ordinal-indexed sequence'),
+        mc=[('list', (2, 2, 2, 1), (2, 3, 3, 1))],
+        edge_codecs=(['int'], ALLC),
+        rand=[('list', ALLC)],
+        rand_size=((30, 80, 10), (300, 150, 40))),      # (histories per codec, steps, maxlen)
+    'C02': dict(
+        mc=[('set', (3, 3, 2, 1), (5, 5, 2, 1))],
+        edge_codecs=(['int', 'slice'], ALLC),
+        rand=[('set', ALLC)],
+        rand_size=((30, 80, 12), (300, 150, 40))),
+    'C03': dict(
+        mc=[('catalog', (2, 3, 2, 1), (3, 4, 2, 1))],
+        edge_codecs=(['int', 'ptr'], KEYC),
+        rand=[('catalog', KEYC)],
+        rand_size=((30, 80, 8), (300, 150, 12))),
+    'C13': dict(
+        mc=[('stack', (1, 3, 2, 1), (2, 4, 2, 1))],
+        edge_codecs=(['int'], ['int', 'string', 'any']),
+        rand=[('stack', ['int', 'string', 'any'])],
+        rand_size=((30, 80, 20), (300, 150, 40))),
+    'C14': dict(
+        mc=[('map', (2, 3, 2, 1), (3, 4, 3, 1))],
+        edge_codecs=(['int', 'string'], ['int', 'string', 'rune', 'any']),
+        rand=[('map', ['int', 'string', 'rune', 'any'])],
+        rand_size=((30, 80, 8), (300, 150, 12))),
+    'C15': dict(
+        mc=[('algebra', (3, 4, 0, 1), (5, 6, 0, 1))],
+        edge_codecs=(['int', 'string'], ['int', 'string', 'slice', 'any']),
+        rand=[('set', ['int', 'string', 'slice', 'any'])],
+        rand_size=((20, 80, 12), (200, 150, 40))),
+    'C16': dict(
+        mc=[('merge', (2, 3, 0, 1), (3, 4, 0, 1)), ('catalogfn', (2, 2, 2, 1), (3, 3, 3, 1)), ('concat', (2, 2, 2, 1), (2, 3, 2, 1))],
+        edge_codecs=(['int'], ['int', 'string', 'any']),
+        rand=[('catalog', ['int', 'string'])],
+        rand_size=((20, 80, 8), (200, 150, 12))),
+    'C17': dict(
+        mc=[('iter', (2, 3, 0, 1), (2, 4, 0, 1))],
+        edge_codecs=(['int', 'string'], ALLC),
+        rand=[('list', ['int']), ('catalog', ['int']), ('stack', ['int']), ('set', ['int']), ('map', ['int']), ('queue', ['int'])],
+        rand_size=((10, 80, 10), (100, 150, 20))),
+    'C18': dict(
+        mc=[('alias', (2, 3, 0, 1), (2, 3, 0, 2)), ('aliasA', (2, 3, 0, 1), (2, 3, 0, 2))],
+        edge_codecs=(['int', 'string'], ['int', 'string', 'any']),
+        rand=[('list', ['int']), ('set', ['int']), ('catalog', ['int']), ('map', ['int']), ('stack', ['int']), ('queue', ['int'])],
+        rand_size=((10, 80, 10), (100, 150, 20))),
 }
+
+
+ALG = {('Set', m) for m in ('And', 'Or', 'Sans', 'Xor')}
+CATFN = {('Catalog', 'Merge'), ('Catalog', 'Extract')}
+CONC = {('List', 'Concatenate')}
+
+
+def tainted(rej, ops):
+    x = rej['line']
+    if (x['k'], x['m']) in ops:
+        return True
+    return any(h.get('t') == 'call' and (h['k'], h['m']) in ops for h in rej['history'])
+
+
+def frame_changed(rej):
+    """ids of objects other than the receiver that differ between the pre- and
+    the post-world of the rejected call (aliasing shows up here)"""
+    x = rej['line']
+    pre, post = rej['pre'], x['w']
+    return [i + 1 for i in range(min(len(pre), len(post))) if i + 1 != x['self'] and pre[i] != post[i]]
+
+
+def in_scope(prop, rej):
+    """Does this rejected call concern this property?  (Every rejected call is
+    a real defect of the library; it is reported by the check of the property
+    it belongs to, the others mention it as OUT-OF-SCOPE.)"""
+    x = rej['line']
+    if prop == 'C02':
+        return not tainted(rej, ALG)
+    if prop == 'C15':
+        return tainted(rej, ALG)
+    if prop == 'C03':
+        return not tainted(rej, CATFN)
+    if prop == 'C16':
+        return tainted(rej, CATFN | CONC)
+    if prop == 'C17':
+        kinds = lambda w: [o.get('kind') for o in w]
+        changed = frame_changed(rej)
+        return x['k'] == 'Iter' or x['m'] == 'GetIterator' or any(rej['pre'][i - 1].get('kind') == 'Iter' for i in changed)
+    if prop == 'C18':
+        selfop = x['self'] != 0 and x['self'] in [a for a in x['args'] if isinstance(a, int)] and x['m'] in (
+            'SetValues', 'InsertValues', 'AppendValues', 'AddValues', 'RemoveValues', 'ContainsAny', 'ContainsAll')
+        return bool(frame_changed(rej)) or x['k'] in ('GoArray', 'GoMap') or selfop
+    return True
 
 
 def run(ctx):
@@ -25,12 +110,12 @@ def run(ctx):
     samples = []
     # (A) edges
     for fam, cq, ct in conf['mc']:
-        mt, ml, mlit = (cq, ct)[ti]
-        edges, stats = we.gen_edges(ctx, fam, mt, ml, mlit, workers=min(8, core.NCPU))
+        mt, ml, mlit, mfuel = (cq, ct)[ti]
+        edges, stats = we.gen_edges(ctx, fam, mt, ml, mlit, mfuel, workers=min(8, core.NCPU))
         scripts, unreachable = we.make_scripts(edges, ctx.seed)
         if unreachable:
             ctx.notes.append('%d edges of family %s have a pre-state not reachable over deterministic edges' % (unreachable, fam))
-        cov['families'][fam] = {'MaxTok': mt, 'MaxLen': ml, 'MaxLit': mlit, 'edges': len(edges),
+        cov['families'][fam] = {'MaxTok': mt, 'MaxLen': ml, 'MaxLit': mlit, 'MaxFuel': mfuel, 'edges': len(edges),
                                 'distinct_states': stats['distinct'], 'generated': stats['generated'],
                                 'scripts': len(scripts)}
         cov['states'] += stats['distinct']
@@ -59,7 +144,15 @@ def run(ctx):
 
     def codec_of(fname):
         return fname.rsplit('_', 1)[1].split('.')[0]
+    out_of_scope = 0
     for rej in rejects:
+        if not in_scope(ctx.prop, rej):
+            out_of_scope += 1
+            if out_of_scope <= 3:
+                x = rej['line']
+                print('OUT-OF-SCOPE: %s.%s%s rejected by World.tla; not a matter of %s (reported by its own property\'s check)' % (
+                    x['k'], x['m'], x['args'], ctx.prop))
+            continue
         byid = scripts_by_file.get(rej['file'])
         we.judge(ctx, [rej], codec_of, byid)
     if traces:
@@ -71,6 +164,7 @@ def run(ctx):
         'trace_lines_validated': total,
         'random_histories': nrand,
         'rejected_lines': len(rejects),
+        'rejected_out_of_scope': out_of_scope,
         'samples': samples,
         'exhaustive': True,
         'rule': 'every edge of the TLC state graph of MCWorld for the listed constants is replayed on the real '
